@@ -184,6 +184,31 @@ pub(crate) mod b {
                 }
             }
         }
+        // (c) every drawing of the quarter / half / three-quarter arc catalogues, with a label or a tail touching it
+        for (kind, span) in crate::map::circle_map::__verif::arc_catalogue_spans() {
+            let w = span.iter().map(|(c, _)| c.x).max().unwrap_or(0) as usize + 1;
+            let h = span.iter().map(|(c, _)| c.y).max().unwrap_or(0) as usize + 1;
+            for (dx, dy) in [(0usize, 0usize), (7, 2), (1, 5)] {
+                for attach in 0..3 {
+                    let mut g = vec![vec![' '; w + dx + 6]; h + dy + 2];
+                    for (c, ch) in span.iter() {
+                        g[c.y as usize + dy][c.x as usize + dx] = *ch;
+                    }
+                    // label right after the last character of the first / last row, or below the first column
+                    let row = if attach == 0 { dy } else { dy + h - 1 };
+                    if attach < 2 {
+                        let last = g[row].iter().rposition(|c| *c != ' ').unwrap_or(dx);
+                        g[row][last + 1] = 'a';
+                        g[row][last + 2] = 'b';
+                    } else {
+                        let col = g[dy + h - 1].iter().position(|c| *c != ' ').unwrap_or(dx);
+                        g[dy + h][col] = 'k';
+                    }
+                    let text: String = g.iter().map(|r| r.iter().collect::<String>().trim_end().to_string()).collect::<Vec<_>>().join("\n") + "\n";
+                    n += check_labels(&text, &format!("{} arc drawing at ({},{}) attach {}", kind, dx, dy, attach));
+                }
+            }
+        }
         println!("BOUNDED-CASES {}", n);
     }
 
